@@ -162,6 +162,17 @@ impl Bloom {
     }
 }
 
+#[cfg(transparencies_stretto_verif)]
+impl Bloom {
+    pub(crate) fn verif_words(&self) -> Vec<u64> {
+        self.bitset.clone()
+    }
+
+    pub(crate) fn verif_params(&self) -> (u64, u64, u64, u64) {
+        (self.size_exp, self.size, self.set_locs, self.shift)
+    }
+}
+
 #[cfg(test)]
 mod test {
     use crate::bbloom::Bloom;
